@@ -1344,6 +1344,119 @@ T("np.histogram2d/range-q", "numpy.histogram2d", lambda N, E: N.histogram2d(E.q(
   note="C06: NumPy wants a nested range for bare data while unyt's helper reads a flat one - no common call form")
 
 
+# =========================================================================================================== operand rank x operand kind
+# Two-operand handlers over EVERY pair of operand ranks 0-d / 1-d / 2-d and every operand kind (quantity, bare ndarray, bare python
+# number). A 0-d operand takes NumPy's scalar routes, which differ per function (outer ravels it to length 1 and always returns 2-d,
+# dot / inner / kron / tensordot(axes=0) multiply, vdot / linalg.outer / concatenate refuse, convolve / correlate promote to 1-d, the
+# stack family promotes with atleast_1d/2d/3d): a handler that shares one shortcut between these functions is wrong for some of them.
+# Names: rank/<function>/<rank a><kind a>-<rank b><kind b>, kind q = quantity, b = bare ndarray, n = bare python number (0-d only).
+_RK = {"0": (), "1": (2,), "2": (2, 2)}
+
+
+def _operand(E, name, rank, kind, group):
+    if kind == "q":
+        return E.q(name, group, _RK[rank])
+    if kind == "b":
+        return E.raw(name, _RK[rank])
+    return E.num(name, "bare")
+
+
+def _rank_sweep(fname, key, fn, ga, gb, dim_of, kinds=("qq", "qb", "bq", "qn", "nq"), cov=True, quick_pairs=(("0", "0"), ("0", "1"), ("1", "0")),
+                quick_qq=(("0", "2"), ("2", "0")), method=False, max_elements=None, **kw):
+    for ra in _RK:
+        for rb in _RK:
+            if max_elements is not None and int(np.prod(_RK[ra])) + int(np.prod(_RK[rb])) > max_elements:
+                continue  # sorting-type functions: n! orderings per run
+            for ka, kb in kinds:
+                if (ka == "n" and ra != "0") or (kb == "n" and rb != "0"):
+                    continue
+                if method and ka == "n":
+                    continue  # a python number has no ndarray method
+                quick = (ra, rb) in quick_pairs or ((ra, rb) in quick_qq and ka + kb == "qq")
+                groups = tuple(dict.fromkeys(g for g, k in ((ga, ka), (gb, kb)) if k == "q"))
+
+                def _mk(ra=ra, rb=rb, ka=ka, kb=kb):
+                    return lambda N, E: fn(N, _operand(E, "a", ra, ka, ga), _operand(E, "b", rb, kb, gb))
+                T(f"rank/{fname}/{ra}{ka}-{rb}{kb}", key, _mk(), groups=groups, dim=dim_of(ka, kb), cov=cov, quick=quick, **kw)
+
+
+def _dim_product(ka, kb):
+    return {"qq": DLT, "qb": DL, "qn": DL, "bq": DT, "nq": DT}[ka + kb]
+
+
+for _fname, _key, _fn in [
+        ("np.dot", "numpy.dot", lambda N, a, b: N.dot(a, b)),
+        ("np.vdot", "numpy.vdot", lambda N, a, b: N.vdot(a, b)),
+        ("np.inner", "numpy.inner", lambda N, a, b: N.inner(a, b)),
+        ("np.outer", "numpy.outer", lambda N, a, b: N.outer(a, b)),
+        ("np.linalg.outer", "numpy.linalg.outer", lambda N, a, b: N.linalg.outer(a, b)),
+        ("np.kron", "numpy.kron", lambda N, a, b: N.kron(a, b)),
+        ("np.tensordot-axes0", "numpy.tensordot", lambda N, a, b: N.tensordot(a, b, 0)),
+        ("np.tensordot-axes1", "numpy.tensordot", lambda N, a, b: N.tensordot(a, b, axes=1)),
+        ("np.einsum-bcast", "numpy.einsum", lambda N, a, b: N.einsum("...,...->...", a, b)),
+        ("np.convolve", "numpy.convolve", lambda N, a, b: N.convolve(a, b)),
+        ("np.correlate", "numpy.correlate", lambda N, a, b: N.correlate(a, b, "full")),
+]:
+    _rank_sweep(_fname, _key, _fn, "L", "T", _dim_product)
+_rank_sweep("m.dot", "ndarray.dot", lambda N, a, b: a.dot(b), "L", "T", _dim_product, kinds=("qq", "qb", "qn"), method=True)
+
+# joining functions on a list whose members have different ranks, 0-d members included (concatenate refuses 0-d, the stack family
+# promotes); a bare python number next to a quantity is a member kind of its own
+for _fname, _key, _fn in [
+        ("np.concatenate", "numpy.concatenate", lambda N, a, b: N.concatenate([a, b])),
+        ("np.concatenate-axisNone", "numpy.concatenate", lambda N, a, b: N.concatenate([a, b], axis=None)),
+        ("np.vstack", "numpy.vstack", lambda N, a, b: N.vstack([a, b])),
+        ("np.hstack", "numpy.hstack", lambda N, a, b: N.hstack([a, b])),
+        ("np.dstack", "numpy.dstack", lambda N, a, b: N.dstack([a, b])),
+        ("np.column_stack", "numpy.column_stack", lambda N, a, b: N.column_stack([a, b])),
+        ("np.stack", "numpy.stack", lambda N, a, b: N.stack([a, b])),
+        ("np.block", "numpy.block", lambda N, a, b: N.block([a, b])),
+        ("np.append", "numpy.append", lambda N, a, b: N.append(a, b)),
+]:
+    _rank_sweep(_fname, _key, _fn, "L", "L", lambda ka, kb: DL, kinds=("qq", "qn", "nq"))
+
+# validating / selecting functions with operands of different ranks (broadcasting of a 0-d operand)
+_C2 = np.array([True, False])
+for _fname, _key, _fn, _dim in [
+        ("np.isclose", "numpy.isclose", lambda N, a, b: N.isclose(a, b, rtol=0.25, atol=0), BARE),
+        ("np.allclose", "numpy.allclose", lambda N, a, b: N.allclose(a, b, 0.25, 0), BARE),
+        ("np.array_equal", "numpy.array_equal", lambda N, a, b: N.array_equal(a, b), BARE),
+        ("np.array_equiv", "numpy.array_equiv", lambda N, a, b: N.array_equiv(a, b), BARE),
+        ("np.where", "numpy.where", lambda N, a, b: N.where(_C2, a, b), DL),
+        ("np.isin", "numpy.isin", lambda N, a, b: N.isin(a, b), BARE),
+        ("np.intersect1d", "numpy.intersect1d", lambda N, a, b: N.intersect1d(a, b), DL),
+        ("np.union1d", "numpy.union1d", lambda N, a, b: N.union1d(a, b), DL),
+        ("np.setdiff1d", "numpy.setdiff1d", lambda N, a, b: N.setdiff1d(a, b), DL),
+        ("np.searchsorted", "numpy.searchsorted", lambda N, a, b: N.searchsorted(a, b), BARE),
+]:
+    _rank_sweep(_fname, _key, _fn, "L", "L", (lambda d: (lambda ka, kb: d))(_dim), kinds=("qq",), quick_pairs=(("0", "0"), ("0", "1"), ("1", "0")), quick_qq=(),
+                max_elements=(3 if _fname in ("np.isin", "np.intersect1d", "np.union1d", "np.setdiff1d", "np.searchsorted") else None))
+# in-place targets written from a source of lower rank
+for _fname, _key, _fn in [
+        ("np.copyto", "numpy.copyto", lambda N, a, b: N.copyto(a, b)),
+        ("np.fill_diagonal", "numpy.fill_diagonal", lambda N, a, b: N.fill_diagonal(a, b)),
+        ("np.putmask", "numpy.putmask", lambda N, a, b: N.putmask(a, np.ones(np.shape(a), dtype=bool), b)),
+        ("np.place", "numpy.place", lambda N, a, b: N.place(a, np.ones(np.shape(a), dtype=bool), b)),
+        ("np.put", "numpy.put", lambda N, a, b: N.put(a, [0], b)),
+]:
+    _rank_sweep(_fname, _key, _fn, "L", "L", lambda ka, kb: None, kinds=("qq",), quick_pairs=(("1", "0"), ("2", "0"), ("2", "1")), quick_qq=())
+
+# =========================================================================================================== rounding: decimals x call form
+# decimals < 0 rounds to tens / hundreds (also for integers), 0 to whole numbers, > 0 to fractions: every sign of `decimals` in the
+# positional, keyword and out= forms of the three spellings np.around / np.round / ndarray.round (only np.around has a handler)
+for _d in (-2, -1, 0, 2):
+    _dn = f"m{-_d}" if _d < 0 else str(_d)
+    _q = _d in (-2, 2)
+    T(f"round/np.around/pos{_dn}", "numpy.around", (lambda d: lambda N, E: N.around(E.q("a", "L", (3,)), d))(_d), dim=DL, cov=False, quick=_q)
+    T(f"round/np.around/kw{_dn}-2d", "numpy.around", (lambda d: lambda N, E: N.around(E.q("a", "L", (2, 2)), decimals=d))(_d), dim=DL, cov=False, quick=not _q)
+    T(f"round/np.around/out{_dn}", "numpy.around", (lambda d: lambda N, E: N.around(E.q("a", "L", (2,)), d, out=E.out("o", "L", (2,))))(_d), dim=DL, cov=False, quick=(_d == -1))
+    T(f"round/np.around/0d{_dn}", "numpy.around", (lambda d: lambda N, E: N.around(E.q("a", "L", ()), d))(_d), dim=DL, cov=False, quick=(_d == -2))
+    T(f"round/np.round/pos{_dn}", "numpy.round", (lambda d: lambda N, E: N.round(E.q("a", "L", (2,)), d))(_d), dim=DL, cov=False, quick=(_d == -1))
+    T(f"round/np.round/kw-out{_dn}", "numpy.round", (lambda d: lambda N, E: N.round(E.q("a", "L", (2,)), decimals=d, out=E.out("o", "L", (2,))))(_d), dim=DL, cov=False, quick=False)
+    T(f"round/m.round/pos{_dn}", "ndarray.round", (lambda d: lambda N, E: E.q("a", "L", (2,)).round(d))(_d), dim=DL, cov=False, quick=(_d == -1))
+    T(f"round/m.round/kw-out{_dn}", "ndarray.round", (lambda d: lambda N, E: E.q("a", "L", (2,)).round(decimals=d, out=E.out("o", "L", (2,))))(_d), dim=DL, cov=False, quick=(_d == -2))
+
+
 def handler_coverage(mods):
     """(all keys of the real _HANDLED_FUNCTIONS, those with at least one template, those without)"""
     AF = mods["AF"]
